@@ -123,6 +123,8 @@ func TestVerifE5Replay(t *testing.T) {
 		vfE5ReplayDoubleDelete(t, name)
 	case "chan_double_delete_unlinks_fresh", "chan_double_delete_waits":
 		vfE5ReplayChanDoubleDelete(t, name)
+	case "empty_races_req_survives":
+		vfE5ReplayEmptyReqSurvives(t, name)
 	case "exit_races_new_topic_publish":
 		vfE5ReplayExitNewTopic(t, name)
 	case "sync_every_zero_delete", "sync_every_negative_delete", "sync_every_one_delete":
@@ -1539,4 +1541,65 @@ func vfE5ReplayExitNewTopic(t *testing.T, name string) {
 	fmt.Printf("E5REPLAY %s exit=%s publish=done acked=%v topic_handed_out_exiting=%v fresh_depth_after_restart=%d old_depth_after_restart=%d lost=%v\n",
 		name, exit, pr.acked, pr.exiting, depth, oldDepth, pr.acked && depth < 1)
 	n2.Exit()
+}
+
+// audit B17: Channel.Empty racing a REQ in progress.  m1 is in flight to a real TCP consumer; its REQ 0 is parked
+// at chan.req.afterPop (out of the in-flight map, not yet back on the queue); Channel.Empty() runs to its end;
+// the REQ continues and puts m1 back on the emptied queue: REQ is answered OK *and* m1 is delivered again after
+// the Empty - no sequential order of the two operations explains that (Props.C08.emptySurvivorSchedule).
+func vfE5ReplayEmptyReqSurvives(t *testing.T, name string) {
+	opts := vfE5Opts(t.TempDir())
+	opts.MemQueueSize = 10
+	opts.ClientTimeout = 60 * time.Second
+	n, err := New(opts)
+	if err != nil {
+		t.Fatal(err)
+	}
+	n.LoadMetadata()
+	go n.Main()
+	defer n.Exit()
+	topic := n.GetTopic("ae")
+	ch := topic.GetChannel("c")
+	m1 := NewMessage(topic.GenerateID(), []byte("one"))
+	topic.PutMessage(m1)
+	conn := vfE5Dial(t, n)
+	defer conn.Close()
+	conn.Write([]byte("SUB ae c\n"))
+	conn.Write([]byte("RDY 1\n"))
+	f1, _ := vfE5Frames(conn, 500*time.Millisecond)
+	g := vfE5NewGate("chan.req.afterPop")
+	conn.Write([]byte("REQ " + string(m1.ID[:]) + " 0\n"))
+	g.wait(t)
+	// a tree where REQ holds the channel's read lock makes Empty wait for the parked REQ; the others let it through
+	empDone := make(chan string, 1)
+	go func() { empDone <- vfE5Try(20*time.Second, func() { ch.Empty() }) }()
+	emp, waited := "", false
+	select {
+	case emp = <-empDone:
+	case <-time.After(400 * time.Millisecond):
+		waited = true
+	}
+	depthAfterEmpty := ch.Depth()
+	close(g.release)
+	if waited {
+		emp = <-empDone
+	}
+	time.Sleep(100 * time.Millisecond)
+	depthAfterReq := ch.Depth()
+	// what the channel still holds once Empty and REQ have both returned (the consumer is ready: a message REQ
+	// put back is delivered at once - before the Empty on a tree where Empty waited, after it otherwise)
+	ch.inFlightMutex.Lock()
+	heldAfter := int64(len(ch.inFlightMessages))
+	ch.inFlightMutex.Unlock()
+	heldAfter += ch.Depth()
+	f2, _ := vfE5Frames(conn, 300*time.Millisecond)
+	again := vfE5CountMsgs(f2)
+	reqErr := false
+	for _, f := range f2 {
+		if strings.HasPrefix(f, "e:E_REQ_FAILED") {
+			reqErr = true
+		}
+	}
+	fmt.Printf("E5REPLAY %s first_delivery=%d empty=%s empty_waited_for_req=%v depth_after_empty=%d depth_after_req=%d req_failed=%v redelivered=%d held_after_both_returned=%d survived=%v\n",
+		name, vfE5CountMsgs(f1), emp, waited, depthAfterEmpty, depthAfterReq, reqErr, again, heldAfter, !reqErr && heldAfter > 0)
 }
